@@ -1413,7 +1413,16 @@ func (x *Exec) goEq(a, b Value, t types.Type) *Term {
 		}
 		return And(Eq(av.R, bv.R), Eq(av.I, bv.I))
 	case Ar:
-		// fixed byte arrays are canonical SMT arrays (zero outside their range): Go == is SMT =
+		// Go's == on a fixed-size array compares its N elements. (The SMT arrays that stand for them are total;
+		// comparing them with = would also compare what lies outside 0..N-1, which nothing constrains.)
+		if av.N > 0 && av.N <= 64 {
+			bv := b.(Ar)
+			var cs []*Term
+			for k := int64(0); k < av.N; k++ {
+				cs = append(cs, Eq(Select(av.A, Int(k)), Select(bv.A, Int(k))))
+			}
+			return And(cs...)
+		}
 		return Eq(av.A, b.(Ar).A)
 	case St:
 		bv := b.(St)
